@@ -19,6 +19,11 @@ type definition struct { //nolint:maligned для удобочитаемости
 }
 
 func ParseSchema(source string) (*Schema, error) {
+	if source == "" {
+		// the cursor needs at least one rune to stand on
+		return &Schema{TypeComments: make(map[string]string)}, nil
+	}
+
 	cur := NewCursor(source)
 
 	var (
